@@ -23,7 +23,8 @@ LEVEL = 'exploration'
 RULE = ('Cases: allocator histories (random: 1-40 events over size alphabets {1,2,3},{4,8},{1,4,16},{2,3,5}; exhaustive: every history of length <= L '
         'over {1,2,3}, L=5 quick / 7 thorough) and memory-map cases (circuit, simulator kind, capacities, c_reuse, strip_forks). A history is non-trivial iff '
         'it contains a free that is followed by a later alloc; a map case iff memory reuse hands out at least one address twice. Distinct = digest of the '
-        'history / of all case fields; distinct allocator states (chunks, released) are counted separately.')
+        'history / of all case fields; distinct allocator states (chunks, released) are counted separately.'
+        ' The shipped b15 netlist (44k nodes, 54k lines) is part of both tiers; the allocator monitor has a client-boundary layer (overlap, high-water lower bound, coalescing gap rule) and an optional white-box layer.')
 ASSUMPTIONS = ['clients free only locations they hold (SimOps does; an invalid free is reported as a client error and not forwarded)',
                'capacities are positive multiples of 4 for the waveform simulators']
 REACH = {'sim.Heap': ('sim.py', 83, 147), 'sim.memmap': ('sim.py', 235, 330)}
